@@ -198,7 +198,7 @@ func slug(s string, max int) string {
 	var b strings.Builder
 	dash := false
 	for _, c := range strings.ToLower(s) {
-		if (c >= 'a' && c <= 'z') || (c >= '0' && c <= '9') || c == '_' {
+		if (c >= 'a' && c <= 'z') || c == '_' { // digits dropped: ports etc. must not enter keys
 			b.WriteRune(c)
 			dash = false
 		} else if !dash && b.Len() > 0 {
